@@ -1,3 +1,4 @@
+import IstioModel.C20.Cleanup
 import IstioModel.Common.Wire
 import IstioModel.C20.Parse
 import IstioModel.C20.Spec
@@ -134,6 +135,14 @@ def step (s : DState) (toks : List String) : DState × String :=
     match i.toNat? with
     | some n => (s, if h : n < arr.size then arr[n] else "none")
     | none => (s, "bad-op")
+  | ["cl", fam] =>
+    -- stream `cleanup`: CleanupOnly over the configuration's own rules - rules left, chains left (sorted)
+    match s.cfg with
+    | some c =>
+      let res := cleanupResidue (rulesOf c (if fam == "6" then .v6 else .v4))
+      let names := (res.chains.map (fun k => k.1.name ++ "/" ++ k.2.name)).toArray.qsort (· < ·)
+      (s, s!"left {res.rules.length} " ++ (if names.isEmpty then "-" else ",".intercalate names.toList))
+    | none => (s, "none")
   | "p" :: rest =>
     match s.cfg, packetOfTokens rest with
     | some c, some p => (s, (if s.spec then specFate c p else fateOf c p).text)
